@@ -366,6 +366,9 @@ def _sorted(interp, st, args, kwargs):
     if isinstance(v, SV) and hasattr(v.ty, 'sorted'):
         yield from v.ty.sorted(interp, st, v, kwargs)
         return
+    if is_heap(v, 'list'):
+        yield from _sorted_heap(interp, st, v, kwargs)
+        return
     raise Unsupported('sorted(...) form')
 
 
@@ -964,3 +967,36 @@ def ctor_model(cls, defaults=None, name=None):
             st.heap.write(cls, f, r.z, to_ty(interp, st, v, ty).z)
         yield st, r
     return Model(name or cls.name, fn)
+
+
+def _sorted_heap(interp, st, v, kwargs):
+    """sorted(xs, key=f) for a heap list: assumed contract (audited): the result is a
+    permutation of xs ordered by key (stability is not used)."""
+    cls = v.ty.cls
+    if 'key' not in kwargs or kwargs.get('reverse'):
+        raise Unsupported('sorted(heap list) form')
+    n = st.heap.read(cls, 'len', v.z)
+    src = st.heap.read(cls, 'arr', v.z)
+    r = ops.new_heap(st, cls)
+    out = z3.Const(sym.fresh_name('sorted'), z3.ArraySort(z3.IntSort(), cls.elem.sort()))
+    perm = z3.Function(sym.fresh_name('perm'), z3.IntSort(), z3.IntSort())
+    pinv = z3.Function(sym.fresh_name('pinv'), z3.IntSort(), z3.IntSort())
+    i, j = z3.Ints(f'{sym.fresh_name("si")} {sym.fresh_name("sj")}')
+    # key term for a symbolic element
+    e = sym.fresh(cls.elem, 'se')
+    sub = st.copy()
+    res = list(interp.call(sub, kwargs['key'], [e], {}))
+    if len(res) != 1 or isinstance(res[0][1], Raised):
+        raise Unsupported('sorted key is not a pure total function')
+    kt = res[0][1]
+    if res[0][0].pc[len(st.pc):]:
+        raise Unsupported('sorted key forks')
+    keyf = lambda z: z3.substitute(lift(kt).z, (e.z, z))
+    st.assume(z3.ForAll([i], z3.Implies(z3.And(0 <= i, i < n), z3.And(
+        0 <= perm(i), perm(i) < n, pinv(perm(i)) == i, z3.Select(out, i) == z3.Select(src, perm(i))))))
+    st.assume(z3.ForAll([j], z3.Implies(z3.And(0 <= j, j < n), z3.And(0 <= pinv(j), pinv(j) < n, perm(pinv(j)) == j))))
+    st.assume(z3.ForAll([i, j], z3.Implies(z3.And(0 <= i, i <= j, j < n), keyf(z3.Select(out, i)) <= keyf(z3.Select(out, j)))))
+    st.heap.write(cls, 'arr', r.z, out)
+    st.heap.write(cls, 'len', r.z, n)
+    st.emit('sorted', source=v, result=r, perm=perm, pinv=pinv, keyf=keyf)
+    yield st, r
